@@ -194,7 +194,7 @@ func runC16(c *fw.Case) {
 	ctx.KVStore(app.GetKey(disttypes.StoreKey)).Delete(disttypes.ParamsKey)
 	// legacy params in x/params
 	legacyMinter := minttypes.LegacyParams{MintDenom: mc.Params.MintDenom, MinterConfig: minttypes.MinterConfig{StartTime: mc.Params.StartTime}}
-	for _, m := range mc.Params.Minters {
+	for _, m := range mc.Sorted {
 		lm := &minttypes.LegacyMinter{SequenceId: m.SequenceId, EndTime: m.EndTime}
 		switch cfg := m.Config.GetCachedValue().(type) {
 		case *minttypes.LinearMinting:
@@ -378,11 +378,11 @@ func runC16(c *fw.Case) {
 	if err := mp.Validate(); err != nil {
 		c.Violate("C16/minter-params-invalid", "migrated minter params fail validation: %v", err)
 	}
-	if mp.MintDenom != mc.Params.MintDenom || !mp.StartTime.Equal(mc.Params.StartTime) || len(mp.Minters) != len(mc.Params.Minters) {
+	if mp.MintDenom != mc.Params.MintDenom || !mp.StartTime.Equal(mc.Params.StartTime) || len(mp.Minters) != len(mc.Sorted) {
 		c.Violate("C16/minter-params-changed", "migrated minter params differ from the legacy ones (denom/start/period count)")
 	} else {
 		for i, m := range mp.Minters {
-			o := mc.Params.Minters[i]
+			o := mc.Sorted[i]
 			same := m.SequenceId == o.SequenceId && ((m.EndTime == nil) == (o.EndTime == nil)) && (m.EndTime == nil || m.EndTime.Equal(*o.EndTime)) && m.Config != nil && m.Config.TypeUrl == o.Config.TypeUrl
 			if same {
 				switch cfg := m.Config.GetCachedValue().(type) {
